@@ -77,6 +77,8 @@ func badType(t *rapid.T, rule string, p *model.Package, env *model.Env) *model.T
 			}
 		}
 		return nil
+	case "primitive-with-type-args":
+		return model.Ref("", rapid.SampledFrom([]string{"float32", "uint8", "string", "int32", "date"}).Draw(t, "primName"), model.Prim("int32"))
 	case "generic-arity-missing":
 		for _, d := range p.Defs {
 			if len(d.TypeParams) > 0 {
@@ -184,10 +186,10 @@ func wrapType(t *rapid.T, bad *model.Type, p *model.Package, isStream bool) (*mo
 				gens = append(gens, d)
 			}
 		}
-		k := rapid.IntRange(0, 5).Draw(t, "wrapKind")
+		k := rapid.IntRange(0, 6).Draw(t, "wrapKind")
 		if cur.Kind == model.KUnion || cur.Kind == model.KOptional {
 			// wrapping a union directly in a union/optional would add a second violation of another rule
-			if k == 0 || k == 3 {
+			if k == 0 || k == 3 || k == 6 {
 				k = 1
 			}
 		}
@@ -204,6 +206,10 @@ func wrapType(t *rapid.T, bad *model.Type, p *model.Package, isStream bool) (*mo
 		case 3:
 			cur = &model.Type{Kind: model.KUnion, ExplicitTags: true, Cases: []*model.Type{model.Prim("bool"), cur}, Tags: []string{"wa" + fmt.Sprint(i), "wb" + fmt.Sprint(i)}}
 			how = append(how, "unioncase")
+		case 6:
+			// a union written as a plain sequence (tags derived from the case types)
+			cur = &model.Type{Kind: model.KUnion, Cases: []*model.Type{cur, model.Prim("string")}, Tags: []string{"", "string"}}
+			how = append(how, "untaggedunioncase")
 		case 4:
 			if len(gens) > 0 {
 				d := gens[rapid.IntRange(0, len(gens)-1).Draw(t, "wrapGen")]
@@ -225,7 +231,7 @@ func wrapType(t *rapid.T, bad *model.Type, p *model.Package, isStream bool) (*mo
 	return cur, how
 }
 
-var typeRules = []string{"unknown-type", "unknown-namespace", "unimported-namespace", "generic-arity-extra", "generic-arity-missing", "union-null-not-first", "union-single-null",
+var typeRules = []string{"unknown-type", "unknown-namespace", "unimported-namespace", "generic-arity-extra", "primitive-with-type-args", "generic-arity-missing", "union-null-not-first", "union-single-null",
 	"union-duplicate-case", "union-nested", "union-duplicate-tag", "union-bad-tag", "union-untaggable", "map-key-vector", "map-key-optional",
 	"map-key-named-record", "map-key-named-enum", "map-key-alias-of-vector", "map-key-through-generic", "array-mixed-dims", "array-duplicate-dim", "array-bad-dim-name", "stream-nested"}
 
